@@ -14,7 +14,9 @@ import sys
 import time
 
 VERIF = os.path.dirname(os.path.dirname(os.path.dirname(os.path.abspath(__file__))))
-WORK = os.path.join(VERIF, ".work")
+WORK = os.environ.get("VERIF_WORK_DIR") or os.path.join(VERIF, ".work")
+EVIDENCE = os.environ.get("VERIF_EVIDENCE_DIR") or os.path.join(VERIF, "evidence")
+REPLAYS = os.environ.get("VERIF_REPLAY_DIR") or os.path.join(VERIF, "replays")
 NSHARDS = int(os.environ.get("VERIF_SHARDS", "16"))
 
 
@@ -88,7 +90,7 @@ def run_check(prop, tier, seed):
     plan = plans.get(prop)
     t0 = time.time()
     os.makedirs(WORK, exist_ok=True)
-    os.makedirs(os.path.join(VERIF, "evidence"), exist_ok=True)
+    os.makedirs(EVIDENCE, exist_ok=True)
     nshards = min(NSHARDS, plan.max_shards(tier))
     procs = []
     env = dict(os.environ)
@@ -145,10 +147,10 @@ def run_check(prop, tier, seed):
     replays = []
     if unknown:
         rc = 1
-        os.makedirs(os.path.join(VERIF, "replays"), exist_ok=True)
+        os.makedirs(REPLAYS, exist_ok=True)
         for v, _ in unknown:
             slug = "".join(ch if ch.isalnum() else "-" for ch in v["sig"])[:80]
-            path = os.path.join(VERIF, "replays", "%s-%s-seed%d.json" % (prop, slug, seed))
+            path = os.path.join(REPLAYS, "%s-%s-seed%d.json" % (prop, slug, seed))
             rep = v["replay"] or {}
             rep = dict(rep)
             rep.update({"property": prop, "signature": v["sig"], "message": v["msg"], "step": v["step"],
@@ -203,7 +205,7 @@ def run_check(prop, tier, seed):
     }
     if plan.exhaustive(tier):
         ev["coverage"]["exhaustive_domains"] = plan.exhaustive(tier)
-    with open(os.path.join(VERIF, "evidence", "%s.json" % prop), "w") as f:
+    with open(os.path.join(EVIDENCE, "%s.json" % prop), "w") as f:
         json.dump(ev, f, indent=1, sort_keys=True)
     for ln in lines:
         print(ln)
